@@ -58,12 +58,17 @@ TEXTS = {
                  'proved; interpreter behaviour is runtime (known finding F15). Axioms: none.'),
     },
     'C02': {
-        'level': ('Unbounded step theorems: an insertion rewires exactly the listed consumers (and the graph '
-                  'output only when -1 is listed), changes no other operand/result/option, adds exactly one op; '
-                  'in-place quantization keeps all wiring; signature outputs follow a rewired output within the '
-                  'same subgraph only. Same model/correspondence as C01 plus a skeleton/erasure/signature oracle '
-                  'comparing input and output flatbuffers.'),
-        'note': 'Composition (erase(output) = input for whole runs) is validated by the oracle, not yet proved. Axioms: none.',
+        'level': ('Unbounded theorems: (step) an insertion rewires exactly the listed consumers (and the graph output only when '
+                  '-1 is listed), changes no other operand/result/option, adds exactly one op; in-place quantization keeps all '
+                  'wiring; signature outputs follow a rewired output within the same subgraph only. (COMPOSITION) for the '
+                  'result of running ANY exact instruction lists - hence for the whole pipeline model - every subgraph has the '
+                  'SKELETON of the input subgraph through a strictly increasing position map: the op at om[i] is original op '
+                  'i with the same opcode index, options and results, each operand derives from the original operand through '
+                  'inserted ops only, every other op is an inserted one-in/one-out op writing a new tensor, original tensors '
+                  'keep index, name and shape, inputs unchanged, outputs derive from the original outputs. Tied by I/T/E and '
+                  'E2; a skeleton/erasure/signature oracle compares input and output flatbuffers.'),
+        'note': ('The I/O dtype clause (float unless INPUT/OUTPUT is covered) and signature consistency over whole runs are '
+                 'checked by oracle + correspondence, not proved. Axioms: none.'),
     },
     'C09': {
         'level': ('Theorem (all models, recipes, matchers, stores, sample indices): one calibration sample changes a '
